@@ -59,17 +59,16 @@ EFFECT_FINDINGS = {}
 INCONCLUSIVE = {
     # tools layer (roots added with the tools / workflow extension)
     ('pharmpy.tools.amd.run', 'run_amd'): {
-        'why': 'out of scope of the static obligation: runs external estimation tools; its first argument may BE the dataset '
-               '(DataFrame input) and the tool-metadata dict that holds it is updated in place',
+        'why': 'container imprecision: `orig_dataset = model.dataset` is handed on as a tool option, the metadata dict created '
+               'by _create_metadata_tool keeps every option, and its later update `tool_metadata[\'stats\'][\'end_time\'] = ..` '
+               '/ ctx.store_metadata(..) is a write into a container that HOLDS the frame (not into the frame); every other '
+               'function of tools/amd is accepted; run_amd has no esttool option, so it cannot be exercised without an external program',
         'sites': {('_update_metadata', "store into tool_metadata['stats']['end_time']"),
                   ('run_tool_with_name', 'unknown method .store_metadata(...)')}},
-    ('pharmpy.tools.funcs.summarize_individuals', 'summarize_individuals_count_table'): {
-        'why': 'sets `.index` of a Series sliced out of its DataFrame argument (an attribute store on the slice object, '
-               'not a data write into the argument; no Model involved)',
-        'sites': {('summarize_individuals_count_table', 'store into parents.index')}},
 }
 # returned-model defects that are listed: (function, oracle tag) -> finding id
-RETURNED_FINDINGS = {('drop_columns', 18): 'C06-DROP-COLUMNS-UNDEFINED'}
+RETURNED_FINDINGS = {('drop_columns', 18): 'C06-DROP-COLUMNS-UNDEFINED',
+                     ('tools.run_ruvsearch', 18): 'C06-RUVSEARCH-STORED-MODEL-UNDEFINED-SYMBOL'}
 # (CompartmentalSystem was repaired in /repo 698ece8: its table must be consistent now)
 # (ColumnInfo repaired in /repo d301152, frozenmapping in e8b6237, Model in 15b36e3: EVERY table must be consistent now)
 EQHASH_FINDINGS = {}
@@ -154,7 +153,7 @@ From PV Require Import C06.Model.
 From C06Gen Require Import Effects.
 Import ListNotations.
 Definition iters := 8%nat.
-Definition summaries : list summary := Eval vm_compute in solve iters effect_programs 80 (bottom effect_programs).
+Definition summaries : list summary := Eval vm_compute in solve_gs iters effect_programs solve_order 40 (bottom effect_programs).
 Definition row (sm : summary) : list nat :=
   if fn_clean sm then [] else 1%nat :: flat_map (fun r => [fst (fst r); snd (fst r); N.to_nat (snd r)]) (offending sm).
 Eval vm_compute in ([if consistent iters effect_programs summaries then 1%nat else 0%nat; length summaries] :: map row summaries).
@@ -903,7 +902,7 @@ def classify_tags(ctx, tags, spec, what_prefix=''):
 def finding_probes(ctx, tabs, B, fns):
     terms, fids = [], []
     for f in ctx.findings:
-        if f.get('status') != 'open':
+        if f.get('status') != 'open' or f['witness'].get('kind') == 'tool_stored':
             continue
         try:
             how, x = finding_witness_case(f, tabs, B, fns)
@@ -1040,10 +1039,11 @@ def oracle_part(ctx, eff):
                 jobs.append({'mode': 'covariates', 'names': [], 'kinds': [kind], 'seed': ctx.seed})
             for c in chunks:
                 jobs.append({'mode': 'doctest+replay', 'names': c, 'replay_variants': rv, 'seed': ctx.seed,
-                             'vary': True, 'vary_limit': 12, 'hash_history': True, 'hash_limit': 14})
+                             'vary': True, 'vary_limit': 8, 'hash_history': True, 'hash_limit': 10})
+            for tool in ('ruvsearch', 'allometry', 'covsearch'):
+                jobs.insert(0, {'mode': 'tool', 'names': [], 'tool': tool, 'workdir': str(cwd / ('tool_' + tool)), 'seed': ctx.seed})
             jobs.append({'mode': 'factory', 'names': names, 'variant': 'base', 'seed': ctx.seed})
             jobs.append({'mode': 'factory', 'names': names, 'variant': 'nmtran_date', 'seed': ctx.seed})
-            jobs.append({'mode': 'factory', 'names': names, 'variant': 'generic', 'seed': ctx.seed})
         else:
             allv = [v for v in oc.VARIANTS if v != 'base']
             for c in chunks:
@@ -1051,6 +1051,8 @@ def oracle_part(ctx, eff):
                              'vary': True, 'vary_limit': None, 'hash_history': True, 'hash_limit': None})
             for kind in oc.DEGENERATE:
                 jobs.append({'mode': 'covariates', 'names': [], 'kinds': [kind], 'seed': ctx.seed})
+            for tool in oc.TOOL_RUNS:
+                jobs.insert(0, {'mode': 'tool', 'names': [], 'tool': tool, 'workdir': str(cwd / ('tool_' + tool)), 'seed': ctx.seed})
             for v in oc.VARIANTS:
                 jobs.append({'mode': 'factory', 'names': names, 'variant': v, 'seed': ctx.seed})
             for v in ('periph', 'foabs', 'generic', 'tad'):
@@ -1084,6 +1086,8 @@ def oracle_part(ctx, eff):
     cov['varied_calls'] = sum(s.get('varied', 0) for s in wstats)
     cov['hash_history_pairs'] = sum(s.get('hash_pairs', 0) for s in wstats)
     cov['degenerate_covariate_calls'] = sum(s.get('covariate_calls', 0) for s in wstats)
+    cov['tool_runs_with_dummy_esttool'] = {e['function']: {'outcome': e['outcome'], 'stored_models': e.get('stored_models')}
+                                            for e in events if e['function'].startswith('tools.run_')}
     for e in events:
         for pr in e.get('hash_problems') or []:
             ctx.violation(f"{e['function']}({', '.join(e['args'])}): {pr}",
@@ -1135,6 +1139,8 @@ def oracle_part(ctx, eff):
                 if fid and ctx.open_finding(fid):
                     ctx.coverage.setdefault('known_hits', {}).setdefault(fid, 0)
                     ctx.coverage['known_hits'][fid] += 1
+                    if ctx.open_finding(fid)['witness'].get('kind') == 'tool_stored':
+                        ctx.known(fid)          # this finding's witness IS the tool run of the oracle
                     continue
                 ctx.violation(f"model returned by {w['function']}: {TAGS[t]}",
                               {'kind': 'returned-model', 'model': w, 'tags': sorted(tags), 'tag_meaning': TAGS[t]})
